@@ -27,7 +27,7 @@ fn fletter(rng: &mut Rng, l: u64) -> V {
     match l {
         0 => V::text("packed"),
         1 => V::text("none"),
-        2 => V::text("tpm"),
+        2 => V::text(*rng.pick(&["tpm", "Packed", "PACKED", "None", "NONE", "packeD", "nonE", "android-key", "fido-u2f", "apple", " packed", "none "])),
         _ => {
             // arbitrary identifiers of any length (WebAuthn does not bound them on the wire)
             let n = match rng.below(6) {
@@ -157,24 +157,25 @@ pub fn run(rep: &mut Rep) {
     rep.count("format_lists_enumerated", if rep.shard == 0 { n_f } else { 0 });
     // (c0) very long parameter lists ("of any length"): hundreds of unknown entries around the known ones
     let mut long_case = 0u64;
-    for &n_unknown in &[100usize, 254, 255, 256, 257, 300, 330] {
-        for pos in 0..3 {
+    for &n_unknown in &[100usize, 254, 255, 256, 257, 300, 330, 420, 520] {
+        for pos in 0..4 {
             long_case += 1;
             case += 1;
             if !rep.mine(case) {
                 continue;
             }
             let mut rng = Rng::derive(seed, "c14-long", long_case);
+            // pos 3: every filler entry has an unknown *type* (and a short one, for the size budget)
             let mut list: Vec<V> = (0..n_unknown)
-                .map(|i| match i % 3 {
+                .map(|i| match if pos == 3 { 1 + i % 2 } else { i % 3 } {
                     0 => param(-257 - (i as i128 % 7), "public-key"),
                     1 => param(-7, ""),
-                    _ => param((rng.u64() as i16) as i128 * 3 + 1000, "pk"),
+                    _ => param(if n_unknown > 400 { 5 + (i as i128 % 17) } else { (rng.u64() as i16) as i128 * 3 + 1000 }, "pk"),
                 })
                 .collect();
             let at = match pos {
                 0 => 0,
-                1 => n_unknown / 2,
+                1 | 3 => n_unknown / 2,
                 _ => n_unknown,
             };
             list.insert(at, param(-8, "public-key"));
